@@ -246,6 +246,68 @@ def check_raw(case):
     return i
 
 
+def check_segments(case):
+    """The keyed observable is made by rs.data.split (or a tumbling rs.data.roll): its groups follow each other on the SAME key
+    index, so every stateful operator of P starts each group on a recycled store slot."""
+    p, src = case['p'], case['items']
+    if case.get('by') == 'roll':
+        n = case['n']
+        runs = [[v for _, v in src[i:i + n]] for i in range(0, len(src), n)]
+        make = lambda inner: rs.data.roll(window=n, stride=n, pipeline=inner)
+    else:
+        runs = []
+        last = object()
+        for k, v in src:
+            if k != last:
+                runs.append([])
+                last = k
+            runs[-1].append(v)
+        make = lambda inner: rs.data.split(lambda i: i[0], inner)
+    items = [[j, v] for j, run in enumerate(runs) for v in run]     # relabelled: group id = position of the run
+    order, g = groups_of(items)
+    plain, pa = plain_runs(p, order, g)
+    env = A.Env()
+    tail = []
+    r = drive.store([tuple(i) for i in src], [make([rs.ops.map(lambda i: i[1]), *A.build_pipeline(p, env), drive.tap(tail)])])
+    lts = drive.lifetimes_of(tail)
+    if len(lts) != len(runs):
+        raise Violation('segments: %d groups were made, %d lifetimes came out of the pipeline' % (len(runs), len(lts)),
+                        pipeline=p, items=src, by=case.get('by'))
+    per = {j: lt['items'] for j, lt in enumerate(lts)}
+    compare(dict(case, items=items), plain, pa, r, per, env.actions, 'segments (%s)' % case.get('by', 'split'))
+    stateful = A.pipeline_stateful(p)
+    has_out = sum(1 for j in order if len(plain[j].items) > 0)
+    labels = H.labels_of(p) + ['tin=' + case['tin'], 'by=' + case.get('by', 'split')]
+    return {'nontrivial': stateful and len(runs) >= 3 and has_out >= 2, 'labels': labels}
+
+
+def tin_is_mono(tin):
+    return tin == 'mono'
+
+
+@st.composite
+def segments_case(draw):
+    case = draw(keyed_case(OPTS))
+    # runs of equal keys: sort-free, the draw decides run lengths
+    runs = draw(st.lists(st.tuples(st.integers(0, 2), st.integers(1, 5)), min_size=1, max_size=6))
+    vals = [v for _, v in case['items']]
+    total = sum(n for _, n in runs)
+    if tin_is_mono(case['tin']):
+        vals = sorted(vals * (1 + total // max(1, len(vals))))[:total] if vals else []
+    else:
+        vals = (vals * (1 + total // max(1, len(vals))))[:total]
+    out = []
+    pos = 0
+    for k, n in runs:
+        for v in vals[pos:pos + n]:
+            out.append([k, v])
+        pos += n
+    case['items'] = out
+    case['by'] = draw(st.sampled_from(['split', 'split', 'roll']))
+    case['n'] = draw(st.integers(1, 4))
+    return case
+
+
 def check_multiplex(case):
     # one group only: multiplex() has a single key and no store
     items = [[0, v] for _, v in case['items']]
@@ -323,6 +385,8 @@ def subs(tier):
             doc='two-level keys: group_by(k1,[group_by(k2,[map(value),*P])]) vs the plain pipeline per (k1,k2) group'),
         Sub('raw', check_raw, gen=lambda: keyed_case(OPTS, raw=True), examples={'quick': 900, 'thorough': 200000},
             doc='raw mux events with sparse / unordered key indices through cast_as_mux_observable + with_memory_store(P)'),
+        Sub('segments', check_segments, gen=segments_case, examples={'quick': 700, 'thorough': 100000},
+            doc='groups that follow each other on one key index (rs.data.split runs / tumbling rs.data.roll windows): each vs the plain pipeline'),
         Sub('multiplex', check_multiplex, gen=lambda: keyed_case(STATELESS), examples={'quick': 600, 'thorough': 60000},
             doc='rs.ops.multiplex(P) (no store) for stateless pipelines'),
         Sub('assert_fails', check_assert, gen=lambda: keyed_case(OPTS, with_assert=True), examples={'quick': 600, 'thorough': 60000},
